@@ -20,14 +20,11 @@ import PydapModel.Cache
 import Proofs.Cache
 import PydapModel.Consolidate
 import Proofs.Consolidate
-<<<<<<< HEAD
 import PydapModel.Transport
 import Proofs.Transport
 import PydapModel.Sessions
 import Proofs.Sessions
-=======
 import Proofs.ClientSrc
->>>>>>> agent-trans4
 namespace Pydap.C18
 open Pydap Pydap.Proxy
 
@@ -472,7 +469,6 @@ example : ∀ g ∈ exFiles, ∃ r, g.path = '/' :: r := by
   · exact ⟨_, rfl⟩
 example : 1 ∉ slabSel 3 (0, 1, 0) ∧ slabSel 3 (0, 1, 2) = [0, 1, 2] ∧ slabSel 5 (0, 1, 2) = [0, 1, 2] := by decide
 
-<<<<<<< HEAD
 /-! ### several sessions in one process -/
 -- model: PydapModel/Sessions.lean — a process is a list of sessions; `create_session` gives every session its own
 -- backend object, `patch_session_for_shared_dap_cache` installs the key closure on THAT object
@@ -681,7 +677,6 @@ example : readsCached List.tail (fun _ : Nat => 0) (serve (fun b => 0x1f :: b) (
       [⟨1, .whole, false, []⟩, ⟨2, .whole, false, []⟩]
     ≠ readsPlain List.tail (serve (fun b => 0x1f :: b) (fun u => [u.toUInt8]) (fun _ => true)) [⟨1, .whole, false, []⟩, ⟨2, .whole, false, []⟩] := by
   decide
-=======
 /-! ### the tie by translation: the *source text* of the texts `consolidate_metadata` builds
 
 Five blocks of client.py `consolidate_metadata`, translated on every run by harness/py2lean.py from the working tree
@@ -730,6 +725,5 @@ example : exFileA.scheme = dap4Lit ∧ NoQ exFileA ∧
   refine ⟨by decide, ⟨by decide, by decide⟩, ⟨by decide, by decide⟩, by decide⟩
 
 end SourceTie
->>>>>>> agent-trans4
 
 end Pydap.C18
